@@ -48,6 +48,17 @@ def gen_history(rng, d, m, T, kind, k, pad_start):
   return hist
 
 
+def as_tensor(g, case):
+  """The (d, m) history matrix as the gradient tensor the routine sees: the sketched axis `axis` of a
+  rank-3 tensor of shape (.., d, ..) whose other axes have sizes tdims (m = tdims[0] * tdims[1]); the
+  matrix is its unfolding along that axis, so G G^T is unchanged.  Rank-2 (axis 0) when absent."""
+  if not case.get("tdims"):
+    return g, 0
+  m1, m2 = case["tdims"]
+  t = np.moveaxis(np.asarray(g).reshape(g.shape[0], m1, m2), 0, case["axis"])
+  return t, case["axis"]
+
+
 class Capture:
 
   def __init__(self):
@@ -91,8 +102,9 @@ def run_ds(case, cap):
   tol = 1e-6
   for g in hist:
     cap.reset()
-    gj = jnp.asarray(g, jnp.float32)
-    fac = ds.frequent_directions_update(None, gj, 0, 0.0, 1.0)
+    gt, axis = as_tensor(g, case)
+    gj = jnp.asarray(gt, jnp.float32)
+    fac = ds.frequent_directions_update(None, gj, axis, 0.0, 1.0)
     V0, l0, _, _, t0, _ = ds._fd_low_rank_unpack(prev, k)
     l0n = np.asarray(l0, np.float64)
     if case["ridge"] > 0:
@@ -126,13 +138,15 @@ def run_tf(case, cap):
   opts = sketchy.Options(epsilon=case["eps"], rank=k, relative_epsilon=case["rel_eps"],
                          second_moment_decay=b, update_freq=1)
   tx = sketchy.apply(opts)
-  st = tx.init({"w": jnp.zeros((d, m), jnp.float32)})
-  ax = st.sketches["w"].axes[0]
+  shape0, axis = as_tensor(np.zeros((d, m)), case)
+  st = tx.init({"w": jnp.zeros(shape0.shape, jnp.float32)})
+  ax = st.sketches["w"].axes[axis]
   steps = []
   for g in hist:
     cap.reset()
     t0 = float(ax.tail)
-    ax = sketchy._update_axis(opts, 0, (jax.tree_util.DictKey("w"),), jnp.asarray(g, jnp.float32), ax)
+    ax = sketchy._update_axis(opts, axis, (jax.tree_util.DictKey("w"),),
+                              jnp.asarray(as_tensor(g, case)[0], jnp.float32), ax)
     if len(cap.svd) != 1:
       raise RuntimeError("expected exactly one svd call, got %d" % len(cap.svd))
     F, (u, s) = cap.svd[0][0], cap.svd[0][1][:2]
@@ -145,7 +159,8 @@ def run_tf(case, cap):
                       eps_rel=float(np.float32(case["eps"])) if case["rel_eps"] else 0.0,
                       t_prev=t0))
   b32 = float(np.float32(b)) if b != 1 else 1.0
-  return dict(steps=steps, p=4, b=b32, k=min(k, d), n=d)
+  # sketchy inverts to the power -1 / (2 * ndim) of the gradient tensor
+  return dict(steps=steps, p=2 * (3 if case.get("tdims") else 2), b=b32, k=min(k, d), n=d)
 
 
 def run_oco(case, cap):
